@@ -150,18 +150,20 @@ class DeviceInfoCache:
         # get the current keys
         cache_id, cache_address = getattr(device_info, '_cache_keys', (None, None))
 
-        if (cache_id is not None) and (device_info.deviceIdentifier != cache_id):
+        if (cache_id is None) or (device_info.deviceIdentifier != cache_id):
             if _debug: DeviceInfoCache._debug("    - device identifier updated")
 
-            # remove the old reference, add the new one
-            del self.cache[cache_id]
+            # remove the old reference if there is one, add the new one
+            if cache_id is not None:
+                del self.cache[cache_id]
             self.cache[device_info.deviceIdentifier] = device_info
 
-        if (cache_address is not None) and (device_info.address != cache_address):
+        if (cache_address is None) or (device_info.address != cache_address):
             if _debug: DeviceInfoCache._debug("    - device address updated")
 
-            # remove the old reference, add the new one
-            del self.cache[cache_address]
+            # remove the old reference if there is one, add the new one
+            if cache_address is not None:
+                del self.cache[cache_address]
             self.cache[device_info.address] = device_info
 
         # update the keys
@@ -174,6 +176,10 @@ class DeviceInfoCache:
 
         if isinstance(key, int):
             device_info = self.cache.get(key, None)
+
+        elif isinstance(key, DeviceInfo):
+            # the state machines pass the record they already looked up
+            device_info = key
 
         elif not isinstance(key, Address):
             raise TypeError("key must be integer or an address")
